@@ -84,14 +84,19 @@ Definition observable (k : ikind) : bool :=
 (** Stream.Aggregation as a view can set it. *)
 Inductive aggsel := ASNil | ASDefault | ASDrop | ASSum | ASLast | ASHist | ASExpo.
 
+(** An instrument: name, description, unit, kind, number type, and the instrumentation scope
+    (name, version, schema URL) of the meter that created it. *)
 Record inst := {
-  i_name : bytes; i_desc : bytes; i_unit : bytes; i_kind : ikind; i_float : bool
+  i_name : bytes; i_desc : bytes; i_unit : bytes; i_kind : ikind; i_float : bool;
+  i_sname : bytes; i_sver : bytes; i_surl : bytes
 }.
 
-(** NewView(criteria, mask): criteria name (may hold the wildcards * and ?), kind, unit;
+(** NewView(criteria, mask): criteria name (may hold the wildcards * and ?), description, kind, unit,
+    scope name / version / schema URL (an empty criterion matches everything);
     mask name / description / unit ([] = keep the instrument's), aggregation, attribute allow-list. *)
 Record view := {
-  vc_name : bytes; vc_kind : option ikind; vc_unit : bytes;
+  vc_name : bytes; vc_desc : bytes; vc_kind : option ikind; vc_unit : bytes;
+  vc_sname : bytes; vc_sver : bytes; vc_surl : bytes;
   vm_name : bytes; vm_desc : bytes; vm_unit : bytes;
   vm_agg : aggsel; vm_filter : option (list bytes)
 }.
@@ -118,15 +123,20 @@ Fixpoint glob (p s : bytes) : bool :=
 
 (** A view NewView refuses (empty criteria; wildcard criteria with a name in the mask) matches nothing. *)
 Definition view_usable (v : view) : bool :=
-  negb (is_nil (vc_name v) && match vc_kind v with None => true | Some _ => false end && is_nil (vc_unit v))
+  negb (is_nil (vc_name v) && is_nil (vc_desc v) && match vc_kind v with None => true | Some _ => false end
+        && is_nil (vc_unit v) && is_nil (vc_sname v) && is_nil (vc_sver v) && is_nil (vc_surl v))
   && negb (has_wild (vc_name v) && negb (is_nil (vm_name v))).
 
 Definition matches (v : view) (i : inst) : bool :=
   view_usable v
   && (if has_wild (vc_name v) then glob (vc_name v) (i_name i)
       else is_nil (vc_name v) || bytes_eqb (vc_name v) (i_name i))
+  && (is_nil (vc_desc v) || bytes_eqb (vc_desc v) (i_desc i))
   && match vc_kind v with None => true | Some k => ikind_eqb k (i_kind i) end
-  && (is_nil (vc_unit v) || bytes_eqb (vc_unit v) (i_unit i)).
+  && (is_nil (vc_unit v) || bytes_eqb (vc_unit v) (i_unit i))
+  && (is_nil (vc_sname v) || bytes_eqb (vc_sname v) (i_sname i))
+  && (is_nil (vc_sver v) || bytes_eqb (vc_sver v) (i_sver i))
+  && (is_nil (vc_surl v) || bytes_eqb (vc_surl v) (i_surl i)).
 
 (** The stream a matching view (or the implicit default view) asks for. *)
 Record sreq := {
@@ -140,18 +150,27 @@ Definition mask (v : view) (i : inst) : sreq :=
 Definition default_req (i : inst) : sreq :=
   {| r_name := i_name i; r_desc := i_desc i; r_unit := i_unit i; r_agg := ASNil; r_filter := None |}.
 
-(** Stream identity (instID.normalize): lower-cased name, description, unit, instrument kind, number type. *)
+(** Stream identity: instID.normalize (lower-cased name, description, unit, instrument kind, number
+    type) within the meter's own aggregator cache, i.e. together with the instrumentation scope. *)
 Definition lower (s : bytes) : bytes := map (fun c => if (65 <=? c) && (c <=? 90) then c + 32 else c) s.
 
-Record sid := { si_name : bytes; si_desc : bytes; si_unit : bytes; si_kind : ikind; si_float : bool }.
+Record sid := { si_name : bytes; si_desc : bytes; si_unit : bytes; si_kind : ikind; si_float : bool;
+                si_sname : bytes; si_sver : bytes; si_surl : bytes }.
 
 Definition sid_eqb (a b : sid) : bool :=
   bytes_eqb (si_name a) (si_name b) && bytes_eqb (si_desc a) (si_desc b) &&
-  bytes_eqb (si_unit a) (si_unit b) && ikind_eqb (si_kind a) (si_kind b) && Bool.eqb (si_float a) (si_float b).
+  bytes_eqb (si_unit a) (si_unit b) && ikind_eqb (si_kind a) (si_kind b) && Bool.eqb (si_float a) (si_float b) &&
+  bytes_eqb (si_sname a) (si_sname b) && bytes_eqb (si_sver a) (si_sver b) && bytes_eqb (si_surl a) (si_surl b).
 
 Definition ident (i : inst) (r : sreq) : sid :=
   {| si_name := lower (r_name r); si_desc := r_desc r; si_unit := r_unit r;
-     si_kind := i_kind i; si_float := i_float i |}.
+     si_kind := i_kind i; si_float := i_float i;
+     si_sname := i_sname i; si_sver := i_sver i; si_surl := i_surl i |}.
+
+(** How a reported metric is named in observations: scope name, version, schema URL and the
+    stream name, separated by NUL bytes (metrics are reported per instrumentation scope). *)
+Definition qualified (i : inst) (n : bytes) : bytes :=
+  i_sname i ++ [0] ++ i_sver i ++ [0] ++ i_surl i ++ [0] ++ n.
 
 (** DefaultAggregationSelector, and what nil / Default resolve to (readers here use the default selector). *)
 Definition default_agg (k : ikind) : aggsel :=
